@@ -4,13 +4,13 @@ CONSTANTS
   MaxIn = 99
   Faults = {"Lose", "Dup", "Reorder"}
   MaxCopies = 2
-  Sizes = {0, 1, 2, 3}
+  Sizes = {0, 1, 3}
   MaxMsgs = 3
   H = 1
-  MTUs = {4}
+  MTUs = {3}
   IDSPACE = 8
   FirstID = 7
-  OutModes = {"all", "one", "hold"}
+  OutModes = {"all"}
   Deviations = {"F31"}
   RECORD = TRUE
   HIST = FALSE
